@@ -32,12 +32,13 @@ def gen_rounds(ctx, n, seed, maxops):
     return rounds
 
 
-def race_rounds(ctx, two):
-    """Forced check-then-act schedules enumerated by TLC from CondWriteRace.tla (one initial state per round)."""
+def race_rounds(ctx, two, bump=False):
+    """Forced check-then-act schedules (or, bump=True, lost-CAS interference rounds) enumerated by TLC from
+    CondWriteRace.tla (one initial state per round)."""
     r = ctx.tlc("CondWriteRace", "CondWrite.Race.cfg", workers=1, timeout=600, count_mc=False,
-                subst={"TwoRacers": "TRUE" if two else "FALSE"})
+                subst={"TwoRacers": "TRUE" if two else "FALSE", "BumpMode": "TRUE" if bump else "FALSE"})
     rounds = [p["phases"] for p in r.printed if isinstance(p, dict) and "phases" in p]
-    if len(rounds) < 100:
+    if len(rounds) < (20 if bump else 100):
         raise vlib.Infra("race round enumeration produced %d rounds (%s)\n%s" % (len(rounds), r.outcome, r.output[-1500:]))
     return rounds
 
@@ -110,6 +111,7 @@ def run(ctx):
         rf, tf = ctx.path("rounds-%s.ndjson" % stack), ctx.path("trace-%s.ndjson" % stack)
         recs = [{"id": i + 1, "ops": ops} for i, ops in enumerate(rounds)]
         forced = race_filter(race_rounds(ctx, two=(ctx.tier == "thorough" and si == 0)), ctx.prop)
+        forced += race_filter(race_rounds(ctx, two=False, bump=True), ctx.prop)
         for ph in forced:
             for o in ph[2]["ops"]:
                 k = o["op"]["kind"] + ":" + o["op"]["cond"] + (":off" if o["op"]["off"] >= 0 else "")
@@ -121,6 +123,10 @@ def run(ctx):
         p = ctx.run([drv, stack, ctx.path("state-" + stack), rf, tf], timeout=1800)
         ctx.log(stack, p.stdout.strip().splitlines()[-1])
         lines = vlib.read_ndjson(tf)
+        nb = sum(1 for ln in lines if ln.get("t") == "ret" and ln.get("bumped"))
+        ctx.extra["lost_cas_interferences_" + stack] = nb
+        if nb == 0:
+            raise vlib.Infra("no call was hit by the simulated competing writer (objrepo.cas hook point never reached)")
         allrounds = split_rounds(lines)
         ctx.sample({"stack": stack, "round": rounds[0]})
         ctx.evaluations += sum(len(r) for r in rounds)
